@@ -665,7 +665,7 @@ class Engine:
             eid = st.eid()
             st.events.append({'k': 'call', 'callee': ci['rpath'], 'name': ci['name'], 'args': tuple(args),
                               'ret': None, 'eid': eid, 'fn': fn['path'], 'ln': t['ln'], 'frame': frame,
-                              'ci': ci, 'mode': 'inline'})
+                              'ci': ci, 'mode': 'inline', 'argtys': t['argtys']})
             for st2, rv in self.run_fn(callee, args, st):
                 if rv is PANIC:
                     yield st2, False
@@ -702,7 +702,8 @@ class Engine:
                 self.havoc(st, a[1], eid)
         st.events.append({'k': 'call', 'callee': ci['rpath'], 'name': ci['name'], 'args': tuple(args),
                           'ret': rv, 'eid': eid, 'fn': fn['path'], 'ln': t['ln'], 'frame': frame, 'ci': ci,
-                          'mode': 'opaque', 'diverges': t['t'] is None, 'exp': t.get('exp', False)})
+                          'mode': 'opaque', 'diverges': t['t'] is None, 'exp': t.get('exp', False),
+                          'argtys': t['argtys']})
         if t['t'] is None:
             st.events.append({'k': 'panic', 'callee': ci['rpath'], 'fn': fn['path'], 'ln': t['ln'],
                               'frame': frame, 'exp': t.get('exp', False)})
